@@ -224,6 +224,11 @@ def check_extraction(ctx, res: Result, dotted, _seen=None, delegated: bool = Fal
         # parameters): what it is handed is the caller's business; nothing that is "missing" here is definite
         res = _Softened(res)
     fresh = _fresh_containers(v)
+    # the must-flow rules read the construction of the extract off the public API calls made on it (add_node / add_edge /
+    # set_*_metadata).  A builder that writes the extract's private tables itself (`h._node_metadata[n] = ...`) is outside that
+    # reading: what it "never does" through the API says nothing
+    if any(isinstance(x, ast.Attribute) and isinstance(x.value, ast.Name) and x.value.id in fresh and x.attr.startswith("_") and not x.attr.startswith("__") for x in walk_no_nested(v.fi.node)):
+        res = _Softened(res)
     rets = [n for n in walk_no_nested(v.fi.node) if isinstance(n, ast.Return) and isinstance(n.value, ast.Name) and n.value.id in fresh]
     delegated = _check_delegation(ctx, res, v, _seen)
     if not fresh or not rets:
